@@ -329,18 +329,41 @@ func (interp *Interpreter) cfg(root *node, sc *scope, importPath, pkgName string
 					lv.findex = vindex
 					lv.gen = loopVarVal
 				}
+				if rangek != nil || rangev != nil {
+					// The statements of the body have their own scope: "v := v * 2"
+					// declares a new variable.
+					sc = sc.pushBloc()
+					n.nleft = 1
+				}
 			}
 			if n.anc != nil && n.anc.kind == forStmt7 {
+				// Each iteration has its own copy of the variables declared by the init
+				// statement (go1.22). The body refers to them through its own symbols.
 				lv := n.child[0]
 				init := n.anc.child[0]
 				if init.kind == defineStmt && len(init.child) >= 2 && init.child[0].kind == identExpr {
-					fi := init.child[0]
-					lv.ident = fi.ident
-					lv.typ = fi.typ
-					vindex := sc.add(lv.typ)
-					sc.sym[lv.ident] = &symbol{index: vindex, kind: varSym, typ: lv.typ}
-					lv.findex = vindex
-					lv.gen = loopVarFor
+					var pairs [][2]int // frame indexes of each variable: in the loop scope, in the body
+					for _, fi := range init.child[:init.nleft] {
+						if fi.kind != identExpr || fi.ident == "_" || fi.typ == nil {
+							continue
+						}
+						vindex := sc.add(fi.typ)
+						sc.sym[fi.ident] = &symbol{index: vindex, kind: varSym, typ: fi.typ}
+						if len(pairs) == 0 {
+							lv.ident = fi.ident
+							lv.typ = fi.typ
+							lv.findex = vindex
+						}
+						pairs = append(pairs, [2]int{fi.findex, vindex})
+					}
+					if len(pairs) > 0 {
+						lv.val = pairs
+						lv.gen = loopVarFor
+						// The statements of the body have their own scope: "i := i * 2"
+						// declares a new variable.
+						sc = sc.pushBloc()
+						n.nleft = 1
+					}
 				}
 			}
 
@@ -817,22 +840,6 @@ func (interp *Interpreter) cfg(root *node, sc *scope, importPath, pkgName string
 						return
 					}
 					if sc.global || sc.isRedeclared(dest) {
-						if n.anc != nil && n.anc.anc != nil && (n.anc.anc.kind == forStmt7 || n.anc.anc.kind == rangeStmt) {
-							// check for redefine of for loop variables, which are now auto-defined in go1.22
-							init := n.anc.anc.child[0]
-							var fi *node // for ident
-							if n.anc.anc.kind == forStmt7 {
-								if init.kind == defineStmt && len(init.child) >= 2 && init.child[0].kind == identExpr {
-									fi = init.child[0]
-								}
-							} else { // range
-								fi = init
-							}
-							if fi != nil && dest.ident == fi.ident {
-								n.gen = nop
-								break
-							}
-						}
 						// Do not overload existing symbols (defined in GTA) in global scope.
 						sym, _, _ = sc.lookup(dest.ident)
 						if sym != nil && !sc.global && n.nleft > 1 {
@@ -1192,6 +1199,9 @@ func (interp *Interpreter) cfg(root *node, sc *scope, importPath, pkgName string
 				n.sym = l.sym
 				n.typ = l.typ
 				n.rval = l.rval
+			}
+			if n.nleft == 1 && n.anc != nil && (n.anc.kind == forStmt7 || n.anc.kind == rangeStmt) {
+				sc = sc.pop() // scope of the statements of a loop body
 			}
 			sc = sc.pop()
 
@@ -1677,6 +1687,12 @@ func (interp *Interpreter) cfg(root *node, sc *scope, importPath, pkgName string
 			}
 			n.start = init.start
 			body.start = body.child[0] // loopvar
+			if pairs, ok := body.child[0].val.([][2]int); ok {
+				// At the end of an iteration (including by continue), before the post
+				// statement, the next iteration gets its own variables.
+				body.val = pairs
+				body.gen = loopVarForNext
+			}
 			if cond.rval.IsValid() {
 				// Condition is known at compile time, bypass test.
 				if cond.rval.Bool() {
